@@ -13,12 +13,8 @@ def _stored_plus_one(v):
     v = v.strip()
     if v.startswith("cast<IntToInt>(") and v.endswith(")"):
         v = v[len("cast<IntToInt>("):-1]
-    for op, suffix in (("AddWithOverflow(", ", 1).0"), ("saturating_add(", ", 1)"), ("Add(", ", 1)")):
-        if v.startswith(op) and v.endswith(suffix):
-            x = v[len(op):-len(suffix)]
-            if x.startswith("unwrap_or(poll(get_int(") and x.endswith("@Ready.0, 0)") and "'consecutive_failed_install_attempts'" in x and x.count("get_int(") == 1:
-                return True
-    return False
+    x = terms.plus_one_base(v)
+    return x is not None and x.startswith("unwrap_or(poll(get_int(") and x.endswith("@Ready.0, 0)") and "'consecutive_failed_install_attempts'" in x and x.count("get_int(") == 1
 
 
 def nodes_of(S, bv, bi):
